@@ -523,6 +523,24 @@ func longInputs() []In {
 				"hello (1.0-1) unstable; urgency=low\n\n  * x\n\n -- A <a@b>  "+w+"\n", "hello (1.0-1) "+w+"; "+w+"\n\n  * x\n\n -- A <a@b>  Mon, 02 Jan 2006 15:04:05 +0100\n")
 		}
 	}
+	// degenerate values of every list-typed and custom-typed field of the typed documents: empty, blank, only the
+	// empty-line marker, only separators - alone in the document and next to well-formed fields
+	degenerate := []string{"", " ", "\t", "\n .", "\n  \n .", "\n .\n .", ",", " , ", ", ,", "\n ,", "\n , ,\n .", " \n x", "|", "()", "[]", "<>", "${}"}
+	typedFields := map[string][]string{
+		"control.ParseDsc":         {"Binary", "Architecture", "Uploaders", "Files", "Checksums-Sha1", "Checksums-Sha256", "Build-Depends", "Build-Depends-Arch", "Build-Depends-Indep", "Version", "Format", "Source"},
+		"control.ParseChanges":     {"Binary", "Architecture", "Closes", "Files", "Checksums-Sha1", "Checksums-Sha256", "Version", "Changes", "Distribution"},
+		"control.ParseControl":     {"Uploaders", "Build-Depends", "Build-Depends-Indep", "Build-Conflicts", "Architecture", "Depends", "Source", "Package"},
+		"control.ParseBinaryIndex": {"Tag", "Architecture", "Version", "Installed-Size", "Size", "Depends", "Package", "MD5sum", "SHA256"},
+		"control.ParseSourceIndex": {"Binary", "Architecture", "Version", "Files", "Checksums-Sha256", "Package-List", "Build-Depends", "Package"},
+		"deb.Control":              {"Architecture", "Version", "Depends", "Pre-Depends", "Installed-Size", "Package", "Multi-Arch"},
+	}
+	for _, ep := range []string{"control.ParseDsc", "control.ParseChanges", "control.ParseControl", "control.ParseBinaryIndex", "control.ParseSourceIndex", "deb.Control"} {
+		for _, f := range typedFields[ep] {
+			for _, v := range degenerate {
+				add(ep, f+":"+v+"\n", "Source: x\nPackage: p\nVersion: 1\nArchitecture: any\n"+f+":"+v+"\nX-After: y\n", f+":"+v)
+			}
+		}
+	}
 	entry := "hello (1.0-1) unstable; urgency=low\n\n  * x\n\n -- A <a@b>  Mon, 02 Jan 2006 15:04:05 +0100\n\n"
 	add("changelog.Parse", rep(entry, 600), "hello (1.0-1) unstable; urgency=low\n\n"+rep("  * x\n", 10000)+"\n -- A <a@b>  Mon, 02 Jan 2006 15:04:05 +0100\n", "hello (1.0-1) unstable; "+rep("k=v, ", 12000)+"z=1\n\n  * x\n\n -- A <a@b>  Mon, 02 Jan 2006 15:04:05 +0100\n", rep("\n", 70000))
 	add("changelog.ParseOne", entry, "hello (1.0-1) "+rep("unstable ", 7000)+"; urgency=low\n\n  * x\n\n -- A <a@b>  Mon, 02 Jan 2006 15:04:05 +0100\n")
@@ -638,7 +656,7 @@ func checkDet(scen string, in DetIn) *mc.Violation {
 	if alone.key() != after.key() || alone.ErrText != after.ErrText {
 		return mc.V(scen, "outcome-depends-only-on-input", in, clip(alone.key()), "after "+in.FirstEntry+": "+clip(after.key()), "entry:"+in.Entry)
 	}
-	if alone.key() != twice.key() {
+	if alone.key() != twice.key() || alone.ErrText != twice.ErrText {
 		return mc.V(scen, "repeated-calls-identical", in, clip(alone.key()), clip(twice.key()), "entry:"+in.Entry)
 	}
 	return nil
